@@ -56,6 +56,13 @@ def repo_root():
     return os.environ.get('VERIF_REPO', '/repo')
 
 
+def evidence_dir():
+    # the self-test analyses scratch copies (VERIF_REPO); its reports must not overwrite the evidence of /repo
+    if os.environ.get('VERIF_REPO') and os.environ.get('VERIF_EVIDENCE_DIR'):
+        return os.environ['VERIF_EVIDENCE_DIR']
+    return os.path.join(VERIF, 'evidence')
+
+
 def source_files(repo):
     out = []
     for base in ['crates']:
@@ -435,9 +442,9 @@ class Report:
                 v['known'] = True
             else:
                 real.append(v)
-        os.makedirs(os.path.join(VERIF, 'evidence', 'violations'), exist_ok=True)
+        os.makedirs(os.path.join(evidence_dir(), 'violations'), exist_ok=True)
         # remove stale violation reports of this property
-        vdir = os.path.join(VERIF, 'evidence', 'violations')
+        vdir = os.path.join(evidence_dir(), 'violations')
         for f in os.listdir(vdir):
             if f.startswith(self.prop + '-'):
                 os.remove(os.path.join(vdir, f))
@@ -502,8 +509,8 @@ class Report:
             'wall_s': round(time.time() - self.t0, 3),
             'violations': n_viol,
         }
-        os.makedirs(os.path.join(VERIF, 'evidence'), exist_ok=True)
-        path = os.path.join(VERIF, 'evidence', f'{self.prop}.json')
+        os.makedirs(evidence_dir(), exist_ok=True)
+        path = os.path.join(evidence_dir(), f'{self.prop}.json')
         tmp = path + f'.tmp{os.getpid()}'
         with open(tmp, 'w') as f:
             json.dump(ev, f, indent=1)
